@@ -179,14 +179,70 @@ func findSmallRewrites(pkgs map[string]*packages.Package, fresh []freshFunc) []t
 					}})
 				}
 			}
+			// the condition of an if statement (one that stands in a statement list and has no init statement): a
+			// literal call that is the first thing the condition evaluates — the left operand of its && / || chain,
+			// under ! or parentheses — runs unconditionally before anything else of the statement, as it does hoisted
+			var firstEvaluated func(e ast.Expr) *ast.CallExpr
+			firstEvaluated = func(e ast.Expr) *ast.CallExpr {
+				switch x := e.(type) {
+				case *ast.ParenExpr:
+					return firstEvaluated(x.X)
+				case *ast.UnaryExpr:
+					if x.Op == token.NOT || x.Op == token.SUB || x.Op == token.XOR {
+						return firstEvaluated(x.X)
+					}
+				case *ast.BinaryExpr:
+					return firstEvaluated(x.X)
+				case *ast.CallExpr:
+					if c := nakedIIFE(x); c != nil {
+						if fl := ast.Unparen(c.Fun).(*ast.FuncLit); fl.Type.Results != nil && fl.Type.Results.NumFields() == 1 {
+							return c
+						}
+						return nil
+					}
+					return nestedIIFE(info, x, true)
+				}
+				return nil
+			}
+			visitIf := func(list []ast.Stmt) {
+				for _, st := range list {
+					is, ok := st.(*ast.IfStmt)
+					if !ok || is.Init != nil {
+						continue
+					}
+					found := firstEvaluated(is.Cond)
+					if found == nil {
+						continue
+					}
+					hoistCounter++
+					name := fmt.Sprintf("__h%d", hoistCounter)
+					out = append(out, textEdit{pkg: pk, file: f, start: is.Pos(), end: found.End(), what: "hoist", text: func(content []byte, off func(token.Pos) int) []byte {
+						ss, cs, ce := off(is.Pos()), off(found.Pos()), off(found.End())
+						if !(0 <= ss && ss <= cs && cs < ce && ce <= len(content)) {
+							return nil
+						}
+						var b []byte
+						b = append(b, name...)
+						b = append(b, " := "...)
+						b = append(b, content[cs:ce]...)
+						b = append(b, '\n')
+						b = append(b, content[ss:cs]...)
+						b = append(b, name...)
+						return b
+					}})
+				}
+			}
 			ast.Inspect(f, func(n ast.Node) bool {
 				switch x := n.(type) {
 				case *ast.BlockStmt:
 					visit(x.List)
+					visitIf(x.List)
 				case *ast.CaseClause:
 					visit(x.Body)
+					visitIf(x.Body)
 				case *ast.CommClause:
 					visit(x.Body)
+					visitIf(x.Body)
 				}
 				return true
 			})
